@@ -167,6 +167,7 @@ def option_sets(text, refs_dir):
     chains = c13.chain_ids(entries)
     cfg = os.path.join(refs_dir, "variant.cfg")
     sets = {"default": [], "-d": ["-d"], "-k": ["-k"], "--protonate-all": ["--protonate-all"], "-q": ["-q"],
+            "--log-level DEBUG": ["--log-level", "DEBUG"],
             "-g/-w": ["-g", "0", "10", "0.5", "-w", "2", "8", "2"], "-p": ["-p", cfg],
             "-p2": ["-p", os.path.join(refs_dir, "variant2.cfg")]}
     if ids:
@@ -371,6 +372,22 @@ def make_machine(ctx, refs, workdir, quick):
             finally:
                 os.chdir(workdir)
             self._judge(i, oname, got, "stream")
+
+        @rule(k=st.integers(0, len(pairs) - 1), frac=st.floats(0, 1), again=st.booleans())
+        def run_stream_in_use(self, k, frac, again):
+            """A stream object that was already read up to some position, then the same object once more (the reader
+            documents that it rewinds file-like input)."""
+            import io
+            from vlib import observe
+            i, oname = pairs[k]
+            text = cat[i]["text"]
+            stream = io.StringIO(text)
+            stream.read(int(frac * len(text)))
+            got = canon(observe.run(text, cat[i]["optsets"][oname], name="inp", stream_obj=stream))
+            self._judge(i, oname, got, "stream-in-use")
+            if again and not stream.closed:
+                got = canon(observe.run(text, cat[i]["optsets"][oname], name="inp", stream_obj=stream))
+                self._judge(i, oname, got, "stream-in-use")
 
         @rule(k=st.integers(0, len(pairs) - 1), sub=st.sampled_from(["a", "b/c", "."]))
         def run_path(self, k, sub):
